@@ -25,10 +25,14 @@ MIXED = [None, 0, False, '', (), 1, True, 'a', (0,), -1, 'b', 7]
 # members for ReplSet: additionally kinds whose type has NO total order -- tuples with differently typed components,
 # nested tuples, complex numbers (`<` raises TypeError), frozensets (`<` is the subset relation: {1,2} and {2,3} are
 # incomparable) -- so that a choice rule for pop() that compares the members themselves shows.  Kept OUT of the domain:
-# two distinct members with equal type name and equal repr (the recorded caveat of the D20 repair), frozensets whose
-# repr depends on their own layout (elements colliding mod 8), 1+0j / 1.0 (equal to 1 and True).
+# two distinct members with equal type name and equal repr (the recorded caveat of the D20 repair), 1+0j / 1.0 (equal to
+# 1 and True).  Frozensets whose repr depends on their own layout are IN the domain since D85.
 SETITEMS = MIXED + [(1, 'a'), ('a', 1), (1, None), (1, 2), ((1,), 'x'), ((1,), 2), (None, (0, 'b')), 1j, 2j, (3+1j),
-                    frozenset(), frozenset([1]), frozenset([1, 2]), frozenset([2, 3]), frozenset([1, 2, 3])]
+                    frozenset(), frozenset([1]), frozenset([1, 2]), frozenset([2, 3]), frozenset([1, 2, 3]),
+                    # D85: members whose OWN repr depends on their hash layout (45 and 53 collide in an 8-slot table;
+                    # str members: per-process hash seed); frozenset([50]) sorts between the two reprs of {45, 53}
+                    frozenset([45, 53]), frozenset([50]), frozenset([53, 61, 45]), frozenset(['a', 'b']), frozenset(['a', 'c']),
+                    (frozenset([45, 53]), 1), (frozenset([50]), 1)]
 ORDERABLE = [0, False, True, 1, -1, 7]
 ERRS = (IndexError, ValueError, KeyError, TypeError, AssertionError)
 CLASSES = bo.CLASSES
@@ -51,22 +55,42 @@ def unlit(r):
         return eval(r, {"__builtins__": {}}, {"frozenset": frozenset, "set": set})
 
 
+def vrepr(x):
+    """repr that depends on the VALUE only: repr(frozenset) lists the members in the order of the frozenset's own
+    hash table, which legitimately differs between equal values (e.g. after a pickle round trip)"""
+    if isinstance(x, (frozenset, set)):
+        return "%s({%s})" % (type(x).__name__, ", ".join(sorted(vrepr(y) for y in x)))
+    if isinstance(x, tuple):
+        return "(%s%s)" % (", ".join(vrepr(y) for y in x), "," if len(x) == 1 else "")
+    return repr(x)
+
+
+def value_key(x):
+    """harness mirror of `pysyncobj.batteries._valueKey` (D85): the order by which ReplSet.pop chooses; used only to
+    steer generators and to sort pictures of sets -- the oracles follow what the implementation returned"""
+    if isinstance(x, (frozenset, set)):
+        return (type(x).__name__, sorted(value_key(y) for y in x))
+    if isinstance(x, tuple):
+        return (type(x).__name__, [value_key(y) for y in x])
+    return (type(x).__name__, repr(x))
+
+
 def canon(v):
     """immediate, type-strict, layout-independent picture of a result / of contents"""
     if isinstance(v, Err):
         return {"e": v.name}
     if isinstance(v, (set, frozenset)):
-        return ["set", sorted([type(x).__name__, repr(x)] for x in v)]
+        return ["set", sorted([type(x).__name__, vrepr(x)] for x in v)]
     if isinstance(v, dict):
-        return ["dict", [[repr(k), repr(x)] for k, x in v.items()]]
+        return ["dict", [[vrepr(k), vrepr(x)] for k, x in v.items()]]
     n = type(v).__name__
     if n in ("dict_keys", "dict_values"):
-        return ["list", [repr(x) for x in v]]
+        return ["list", [vrepr(x) for x in v]]
     if n == "dict_items":
-        return ["dict", [[repr(k), repr(x)] for k, x in v]]
+        return ["dict", [[vrepr(k), vrepr(x)] for k, x in v]]
     if n in ("list", "deque"):
-        return ["list", [repr(x) for x in v]]
-    return repr(v)
+        return ["list", [vrepr(x) for x in v]]
+    return vrepr(v)
 
 
 def args_of(op):
@@ -98,7 +122,7 @@ def battery_raw_contents(cls, obj):
 
 def contents_canon(cls, c):
     if cls == "pq":
-        return ["multiset", sorted(repr(x) for x in c)]
+        return ["multiset", sorted(vrepr(x) for x in c)]
     return canon(c)
 
 
@@ -458,7 +482,7 @@ def drain(obj):
     out = []
     while len(obj):
         try:
-            out.append(repr(obj.pop(_doApply=True)))
+            out.append(vrepr(obj.pop(_doApply=True)))
         except ERRS as e:                       # pop on a non-empty set must not raise; reported by the caller
             out.append("raises " + type(e).__name__)
             break
@@ -544,6 +568,68 @@ def monitor_case(B, cls, maxsize, ops, tags=None):
     return viols
 
 
+# ------------------------------------------------------------------------------------------------
+# correspondence: which member ReplSet.pop removes  vs.  the Lean model of `_valueKey` (PSO.Py.PySet.chooseIdx)
+# ------------------------------------------------------------------------------------------------
+def member_json(m, flip=False):
+    """int | {"a":[type name, repr]} | {"t":[...]} | {"f":[members in the iteration order of the frozenset]}"""
+    if isinstance(m, (frozenset, set)):
+        e = list(m)
+        return {"f": [member_json(y, flip) for y in (reversed(e) if flip else e)]}
+    if isinstance(m, tuple):
+        return {"t": [member_json(y, flip) for y in m]}
+    if type(m) is int:
+        return m
+    return {"a": [type(m).__name__, repr(m)]}
+
+
+def member_cases(rng, n):
+    atoms = [None, False, True, 0, 1, -1, 2, 10, 45, 50, 53, 61, 100, 'a', 'b', 'ab', '', 1j]
+    fs = [frozenset(), frozenset([1]), frozenset([1, 2]), frozenset([2, 3]), frozenset([45, 53]), frozenset([50]), frozenset([53, 61, 45]),
+          frozenset(['a', 'b']), frozenset(['a', 'c']), frozenset([frozenset([45, 53]), 1]), frozenset([(1, 'a'), (1, 2)])]
+    tps = [(), (1,), (1, 2), (1, 'a'), ('a', 1), (1, None), ((1,), 2), ((1,), 'x'), (frozenset([45, 53]), 1), (frozenset([50]), 1),
+           (1, (2, frozenset([53, 45])))]
+    pool = atoms + fs + tps
+    out = [[frozenset([45, 53]), frozenset([50])], [(1, 'a'), (1, 2)], [(frozenset([45, 53]), 1), (frozenset([50]), 1)], [0, False],
+           fs, tps, atoms]
+    while len(out) < n:
+        kind = rng.random()
+        src = pool if kind < 0.5 else fs if kind < 0.7 else tps if kind < 0.9 else atoms
+        out.append(rng.sample(src, rng.randrange(1, min(7, len(src)) + 1)))
+    return out
+
+
+def members_correspondence(ctx, B, rng):
+    cases = member_cases(rng, ctx.scale(300, 5000))
+    lines, metas = [], []
+    for ms in cases:
+        obj = B.ReplSet()
+        for m in ms:
+            obj.add(pickle.loads(pickle.dumps(m, -1)) if rng.random() < 0.5 else m, _doApply=True)
+        enum = list(obj.rawData())                    # iteration order of the real hash table
+        try:
+            got = obj.pop(_doApply=True)
+        except ERRS as e:
+            got = Err(type(e).__name__)
+        for variant in range(2):                      # as iterated / another enumeration of the same values
+            en = enum if variant == 0 else rng.sample(enum, len(enum))
+            lines.append(json.dumps({"cls": "members", "enum": [member_json(m, flip=(variant == 1)) for m in en]}))
+            metas.append((ms, en, got))
+    outl = ctx.driver("batteries", lines)
+    dis, kinds = [], {}
+    for (ms, en, got), o in zip(metas, outl):
+        idx = json.loads(o).get("idx")
+        model = en[idx] if isinstance(idx, int) else None
+        for m in en:
+            kinds[type(m).__name__] = kinds.get(type(m).__name__, 0) + 1
+        if isinstance(got, Err) or idx is None or not (model == got and type(model) is type(got)):
+            if len(dis) < 3:
+                dis.append({"input": {"cls": "members", "members": [vrepr(m) for m in en]},
+                            "model": None if model is None else vrepr(model), "impl": canon(got),
+                            "note": "Lean PySet.chooseIdx (model of batteries._valueKey) vs the member the real ReplSet.pop() removed"})
+    return len(lines), dis, kinds
+
+
 FLOORS = [
     "dict.setdefault:stored-None-hit", "dict.get:stored-None-hit", "dict.pop:stored-None-hit", "dict.__contains__:stored-None-hit",
     "dict.__getitem__:stored-None-hit", "dict.setdefault:stored-falsy-hit", "dict.get:stored-falsy-hit", "dict.pop:stored-falsy-hit",
@@ -592,14 +678,18 @@ def run(ctx):
                 continue
             seen.add(v["signature"])
             viols.append(_minimise(B, cls, m, ops, v["signature"]) or v)
+    n_mc, dis, mkinds = members_correspondence(ctx, B, ctx.rng("batteries_mixed.members"))
     missing = [f for f in FLOORS if not tags.get(f)]
-    res = {"cases": len(cases), "distinct": len(distinct),
+    missing += ["members-correspondence:" + k for k in ("int", "str", "tuple", "frozenset", "NoneType", "bool") if not mkinds.get(k)]
+    res = {"cases": len(cases) + n_mc, "distinct": len(distinct),
            "coverage": {"systematic_cases": n_sys, "operations": n_ops, "domain": [repr(x) for x in MIXED],
                         "situations": dict(sorted(tags.items())), "method/arity": dict(sorted(cov.items()))},
            "samples": [{"cls": c, "maxsize": m, "ops": [show(o) for o in o_[:10]]} for c, m, o_ in (cases[1], cases[n_sys], cases[-1])],
-           "disagreements": [], "violations": viols[:8], "wall_s": round(time.time() - t0, 2),
-           "notes": "monitor only (real battery vs real builtin, mixed value domain); no Lean model involved"}
-    if missing and not viols:
+           "disagreements": dis, "violations": viols[:8], "wall_s": round(time.time() - t0, 2),
+           "notes": "monitor (real battery vs real builtin, mixed value domain) + correspondence of the member chosen by ReplSet.pop "
+                    "with the Lean model of _valueKey (driver `batteries`, cls `members`)"}
+    res["coverage"]["members_correspondence"] = {"queries": n_mc, "member_kinds": mkinds}
+    if missing and not viols and not dis:
         res["inconclusive"] = "coverage floor missed: " + ", ".join(missing[:8])
     elif missing:
         res["coverage"]["floors_missed"] = missing
